@@ -1,12 +1,152 @@
-// Package c04 checks property C04 (not built yet).
+// Package c04 checks property C04: every reference in a parsed module is the
+// object that defines it.
 package c04
 
 import (
+	"fmt"
+	"os"
+	"path/filepath"
+	"sort"
+	"strings"
+	"time"
+
+	"verif/harness/llvmoracle"
 	"verif/harness/mbt"
+	"verif/harness/props/irwalk"
 	"verif/harness/props/reg"
+	"verif/harness/props/trcheck"
+	"verif/harness/props/trsrc"
 )
 
 func init() { reg.Register("C04", Run) }
 
+// shape is a stable description of a source: the kinds of its entities, sorted.
+func shape(src []trsrc.Entity) string {
+	var ks []string
+	for _, e := range src {
+		k := e.K
+		if e.Body != "" {
+			k += ":" + e.Body
+		}
+		ks = append(ks, k)
+	}
+	sort.Strings(ks)
+	return strings.Join(ks, ",")
+}
+
+func walkText(rep *mbt.Report, origin, label, text string) {
+	m, err, p := trcheck.ParseReal(label, text)
+	if p != "" || err != nil || m == nil {
+		return // acceptance is C01/C05's business
+	}
+	issues, st := irwalk.Check(m)
+	rep.Count("walk:"+text, st.Refs > 0)
+	rep.TracesValidated++
+	refs := rep.Extra["references_checked"].(int)
+	rep.Extra["references_checked"] = refs + st.Refs
+	for _, is := range issues {
+		rep.Fail(mbt.Failure{Signature: "C04|" + is.Kind + "|" + origin, What: is.String() + " — input " + label, Case: map[string]string{"src": text}})
+	}
+}
+
 // Run is the C04 check.
-func Run(tier, replay string) { mbt.Infra("check C04 is not built yet") }
+func Run(tier, replay string) {
+	rep := mbt.NewReport("C04", tier, "model_checking")
+	rep.Extra["references_checked"] = 0
+	rep.Rule = "a case is a parsed module whose object graph was walked by reflection (every reachable global, local, named type, comdat, attribute group and numbered metadata node compared by pointer with the definition lists; parent links; placeholder blocks); sources: TLC vectors of Translate.tla (reference patterns x permutations), repository test inputs, seeded llvm-stress programs, and the printed form of each"
+	if replay != "" {
+		var rf struct {
+			Failures []struct {
+				Case map[string]string `json:"case"`
+			} `json:"failures"`
+		}
+		if err := mbt.ReadJSON(replay, &rf); err != nil {
+			mbt.Infra("replay: %v", err)
+		}
+		for _, f := range rf.Failures {
+			walkText(rep, "replay", "replay.ll", f.Case["src"])
+		}
+		rep.Finish()
+	}
+	// (S)+(G): the model holds RefIdentity / NoDummyLeft / ScaffoldBeforeUse on every processing order;
+	// its sources are replayed into the real parser.
+	permAll := 4
+	if tier == "thorough" {
+		permAll = 6
+	}
+	vs := trcheck.Generate(rep, "perms", permAll)
+	cs := trcheck.Run(vs)
+	discarded := 0
+	for _, c := range cs {
+		if c.Want.St != "ok" {
+			continue
+		}
+		if !c.LLVMOK {
+			discarded++
+			continue
+		}
+		if len(rep.Samples) < 3 {
+			rep.Sample(map[string]interface{}{"src": c.Text, "picks_of_model": c.Picks})
+		}
+		switch {
+		case c.Panic != "":
+			rep.Fail(mbt.Failure{Signature: "C04|parse-panic|" + shape(c.Src), What: "parser panics on a valid reference pattern: " + c.Panic, Case: map[string]string{"src": c.Text}})
+			continue
+		case c.Err != nil:
+			rep.Fail(mbt.Failure{Signature: "C04|parse-error|" + shape(c.Src), What: "parser rejects a valid reference pattern: " + c.Err.Error(), Case: map[string]string{"src": c.Text}})
+			continue
+		case c.PrintPanic != "":
+			rep.Fail(mbt.Failure{Signature: "C04|print-panic|" + shape(c.Src), What: "printing the parsed pattern panics: " + c.PrintPanic, Case: map[string]string{"src": c.Text}})
+		}
+		walkText(rep, "pattern", "vector.ll", c.Text)
+		if c.Printed != "" {
+			walkText(rep, "pattern-printed", "vector-printed.ll", c.Printed)
+		}
+	}
+	if discarded*10 > len(cs) {
+		mbt.Infra("LLVM rejects %d of %d reference patterns: renderer or patterns are off", discarded, len(cs))
+	}
+	rep.Extra["pattern_sources"] = len(cs)
+	rep.Extra["patterns_discarded_by_llvm"] = discarded
+	// type aliases: accepted by the parser, unknown to LLVM
+	for _, c := range trcheck.Run(trcheck.Generate(rep, "alias", 3)) {
+		if c.Want.St == "ok" && c.Mod != nil {
+			walkText(rep, "type-alias", "alias.ll", c.Text)
+		}
+	}
+	// (T) the same walk on other parsed modules
+	var files []string
+	for _, g := range []string{"testdata/*.ll", "asm/testdata/*.ll", "ir/testdata/*.ll"} {
+		fs, _ := filepath.Glob(filepath.Join(mbt.Repo, g))
+		files = append(files, fs...)
+	}
+	sort.Strings(files)
+	for _, f := range files {
+		b, err := os.ReadFile(f)
+		if err != nil {
+			continue
+		}
+		walkText(rep, "testdata", filepath.Base(f), string(b))
+	}
+	nStress := 30
+	if tier == "thorough" {
+		nStress = 300
+	}
+	texts := make([]string, nStress)
+	llvmoracle.Parallel(nStress, func(i int) {
+		out, _, code, err := mbt.Tool(nil, 60*time.Second, "llvm-stress", "-size=120", fmt.Sprintf("-seed=%d", mbt.Seed()*1000+int64(i)))
+		if err == nil && code == 0 {
+			texts[i] = string(out)
+		}
+	})
+	for i, t := range texts {
+		if t != "" {
+			walkText(rep, "llvm-stress", fmt.Sprintf("stress-%d.ll", i), t)
+		}
+	}
+	viol := trcheck.AsImplementedViolations(rep, "alias")
+	rep.Extra["model_as_implemented_violates"] = viol
+	rep.Assumptions = []string{"identity is judged by the reflection walk of harness/props/irwalk over exported fields; objects reachable only through unexported fields are not seen",
+		"the model's reference patterns are those of TranslateSrc.tla; LLVM 14 confirms each is valid"}
+	rep.Finish()
+}
